@@ -107,6 +107,12 @@ def dedup {α : Type} [DecidableEq α] : List α → List α
   | [] => []
   | a :: l => if a ∈ dedup l then dedup l else a :: dedup l
 
+/-- de-duplication of a request list by segment key (last request of a key wins: the rotated one) —
+what `Cfg.dedupSeg = true` would do; the code as it is does not do it -/
+def dedupKey : List (Seg × Nat) → List (Seg × Nat)
+  | [] => []
+  | r :: l => if (dedupKey l).any (fun r' => r'.1 = r.1) then dedupKey l else r :: dedupKey l
+
 def blocksOf (g : Seg) (n : Nat) : List Block := (List.range n).map (fun b => (g, b))
 
 /-- flush of stream `i` (atomic under the store lock) -/
@@ -149,7 +155,7 @@ def nowCount (s : St) (g : Seg) : Nat := if s.unrot g ≠ 0 then s.unrot g else 
 
 def readResult (cfg : Cfg) (s : St) (q : Query) : List Block :=
   let qsrs := q.snapU ++ q.snapR
-  let qsrs := if cfg.dedupSeg then dedup qsrs else qsrs
+  let qsrs := if cfg.dedupSeg then dedupKey qsrs else qsrs
   match q.kind with
   | .rrc => dedup (qsrs.flatMap (fun r => blocksOf r.1 (nowCount s r.1)))
   | .stats => qsrs.flatMap (fun r => blocksOf r.1 r.2)
